@@ -59,6 +59,14 @@ func genC13(t *core.Tape, tier string) *Scenario {
 	}
 	// an HTTPClient that edits the request it is handed (per-call routing)
 	mutURL := t.Bool(1, 2, "httpclient.edits.url")
+	broken := -1
+	if t.Bool(1, 6, "broken.client") {
+		// one more client, misconfigured: every call on it fails with the error
+		// NewClient recorded - each call with its own, as far as the caller can tell
+		sc.Clients = append(sc.Clients, ClientCfg{Proto: genProto(t), Broken: true, ReadMax: 1 << 20})
+		broken = len(sc.Clients) - 1
+		sc.Notes["broken_client"]++
+	}
 	g := 2 + t.Choose(5, "tasks")
 	k := 1 + t.Choose(3, "calls.per.task")
 	n := 0
@@ -66,6 +74,9 @@ func genC13(t *core.Tape, tier string) *Scenario {
 		for j := 0; j < k; j++ {
 			p := &CallPlan{ID: callID(n), Kind: genKind(t), Client: t.Choose(nclients, "client"), Task: task}
 			n++
+			if broken >= 0 && t.Bool(1, 4, "on.broken.client") {
+				p.Client = broken
+			}
 			p.K = genKnobs(t, p.Kind)
 			p.K.MutateURL = mutURL
 			nreq, nresp := 1, 1
@@ -202,6 +213,12 @@ func checkC13(w *World, st core.Status, r *RunResult) []Violation {
 		}
 		if p.bad != "" {
 			continue // a corrupt neighbour: only its effect on the others matters here
+		}
+		if w.Sc.Clients[p.Client].Broken {
+			if o.FinalSet && o.Final == nil {
+				add("solo/broken-client-succeeded", "a call on a client whose construction failed ended in success")
+			}
+			continue
 		}
 		// the solo expectation
 		if o.H.Entered != 1 {
